@@ -116,6 +116,17 @@ theorem one_byte_damage_mismatch (p s : List Nat) (x y : Nat) (hp : Octets p) (h
   rw [right]
   exact one_byte_changes_crc p s x y hp hs hx hy hne
 
+/-- **C04 (readout level).** A readout whose transmitted checksum is the CRC of a text that differs in
+    exactly one byte from the text it actually covers (`'/'` through `'!'`) is reported not valid. -/
+theorem one_byte_damage_invalid (raw : List Nat) (r : Readout) (hm : Readout.make raw = .ok r) (v : Nat)
+    (ht : IsChecksumText r.afterBang v) (p s : List Nat) (x y : Nat)
+    (hcov : r.bytes.take (r.endPos + 1) = p ++ y :: s)
+    (hp : Octets p) (hs : Octets s) (hx : x < 256) (hy : y < 256) (hne : x ≠ y)
+    (hv : v = crc16Arc (p ++ x :: s)) : r.isValid = .ok false := by
+  apply mismatch_invalid raw r hm v ht
+  rw [hcov, hv, ← crc_is_arc, ← crc_is_arc]
+  exact one_byte_changes_crc p s x y hp hs hx hy hne
+
 /-- non-vacuity -/
 example : crc16 ([47, 65] ++ 66 :: [33]) ≠ crc16 ([47, 65] ++ 67 :: [33]) :=
   one_byte_changes_crc [47, 65] [33] 66 67 (by decide) (by decide) (by decide) (by decide) (by decide)
